@@ -1,5 +1,187 @@
-From Coq Require Import ZArith List.
-From Cspuz Require Import Lib.PyErr Core.Expr Array.Elementwise Gen.DunderTable Array.DunderProofs.
+From Coq Require Import ZArith List Bool.
+From Cspuz Require Import Lib.PyErr Core.Expr Core.Build Array.Slice Array.Elementwise Array.Helpers
+  Array.ArraySpec Gen.DunderTable Array.DunderProofs Array.ElementwiseProofs Array.ProtocolProofs
+  Array.HelpersProofs.
+Import ListNotations.
+Open Scope Z_scope.
+
+(* _elementwise: same shape, result sort of the operator, item i is the operator
+   applied to the operands' items i, and that node denotes the operator's meaning *)
+Theorem elementwise_pointwise : forall o sh ops r,
+  wf_shape sh -> elementwise o sh ops = Ok r ->
+  exists data, r = VA (kind_of_op o) sh data /\ zlen data = shape_size sh /\
+    forall i, (i < length data)%nat ->
+      exists args, mapM (operand_at i) ops = Ok args /\
+        nth_error data i = Some (mk_node o args) /\
+        forall en, eval no_graph en (mk_node o args) = op_sem o (map (value_at en i) ops).
+Proof. exact elementwise_spec. Qed.
+Print Assumptions elementwise_pointwise.
+
+Theorem elementwise_defined : forall o sh ops,
+  elem_typecheck o ops = Some true ->
+  forallb (shape_ok sh) ops = true -> forallb wf_val ops = true -> wf_shape sh ->
+  exists r, elementwise o sh ops = Ok r.
+Proof. exact elementwise_total. Qed.
+Print Assumptions elementwise_defined.
+
+(* the method table read from the Python source is the table the model runs *)
 Theorem dunder_table_correct : forall c m, lookup_row dunder_table c m = lookup_method c m.
 Proof. exact dunder_table_lookup. Qed.
 Print Assumptions dunder_table_correct.
+
+(* A op B, A op s, s op A through CPython's operator protocol (operand order kept) *)
+Theorem operator_forms_pointwise : forall o same a b k sh,
+  operands_ok o k a b = true ->
+  is_arr a || is_arr b = true ->
+  wf_val a = true -> wf_val b = true ->
+  shape_ok sh a = true -> shape_ok sh b = true ->
+  pointwise_result (py_binop o same a b) (pyop_result_kind o) sh
+    (fun en i => pyop_sem o k (value_at en i a) (value_at en i b)).
+Proof. exact binop_pointwise. Qed.
+Print Assumptions operator_forms_pointwise.
+
+Theorem unary_forms_pointwise : forall u k sh d,
+  k = unop_kind u -> wf_val (VA k sh d) = true ->
+  pointwise_result (py_unop u (VA k sh d)) k sh (fun en i => unop_sem u (value_at en i (VA k sh d))).
+Proof. exact unop_pointwise. Qed.
+Print Assumptions unary_forms_pointwise.
+
+Theorem then_form_pointwise : forall x y sh,
+  has_kind KB x && has_kind KB y = true ->
+  first_shape [x; y] = Some sh ->
+  forallb wf_val [x; y] = true -> forallb (shape_ok sh) [x; y] = true ->
+  pointwise_result (fn_then x y) KB sh
+    (fun en i => then_sem (value_at en i x) (value_at en i y)).
+Proof. exact then_pointwise. Qed.
+Print Assumptions then_form_pointwise.
+
+Theorem cond_form_pointwise : forall c t f sh,
+  has_kind KB c && has_kind KI t && has_kind KI f = true ->
+  first_shape [c; t; f] = Some sh ->
+  forallb wf_val [c; t; f] = true -> forallb (shape_ok sh) [c; t; f] = true ->
+  pointwise_result (fn_cond c t f) KI sh
+    (fun en i => cond_sem (value_at en i c) (value_at en i t) (value_at en i f)).
+Proof. exact cond_pointwise. Qed.
+Print Assumptions cond_form_pointwise.
+
+Theorem then_method_is_then : forall self y,
+  bool_class self = true -> call_method self m_then [y] = fn_then self y.
+Proof. exact then_method_is_function. Qed.
+Print Assumptions then_method_is_then.
+
+Theorem cond_method_is_cond : forall self t f,
+  bool_class self = true -> call_method self m_cond [t; f] = fn_cond self t f.
+Proof. exact cond_method_is_function. Qed.
+Print Assumptions cond_method_is_cond.
+
+(* a boolean-valued operand where an integer-valued one is required, or vice versa *)
+Theorem ill_typed_rejected : forall o same a b k,
+  pyop_operand_kind o = Some k ->
+  has_kind k a && has_kind k b = false ->
+  is_builtin (class_of a) && is_builtin (class_of b) = false ->
+  py_binop o same a b = Err TypeError.
+Proof. exact binop_ill_typed_rejected. Qed.
+Print Assumptions ill_typed_rejected.
+
+Theorem ill_typed_unary_rejected : forall u a,
+  has_kind (unop_kind u) a = false -> is_builtin (class_of a) = false ->
+  py_unop u a = Err TypeError.
+Proof. exact unop_ill_typed_rejected. Qed.
+Print Assumptions ill_typed_unary_rejected.
+
+Theorem ill_typed_then_rejected : forall x y,
+  has_kind KB x && has_kind KB y = false -> fn_then x y = Err TypeError.
+Proof. exact then_ill_typed_rejected. Qed.
+Print Assumptions ill_typed_then_rejected.
+
+Theorem ill_typed_cond_rejected : forall c t f,
+  has_kind KB c && has_kind KI t && has_kind KI f = false -> fn_cond c t f = Err TypeError.
+Proof. exact cond_ill_typed_rejected. Qed.
+Print Assumptions ill_typed_cond_rejected.
+
+Theorem shape_mismatch_rejected : forall o same ka sha da kb shb db k,
+  operands_ok o k (VA ka sha da) (VA kb shb db) = true ->
+  shape_eqb shb sha = false ->
+  py_binop o same (VA ka sha da) (VA kb shb db) = Err ValueError.
+Proof. exact binop_shape_mismatch_rejected. Qed.
+Print Assumptions shape_mismatch_rejected.
+
+Theorem shape_mismatch_then_rejected : forall x y sh,
+  has_kind KB x && has_kind KB y = true ->
+  first_shape [x; y] = Some sh -> forallb (shape_ok sh) [x; y] = false ->
+  fn_then x y = Err ValueError.
+Proof. exact then_shape_mismatch_rejected. Qed.
+Print Assumptions shape_mismatch_then_rejected.
+
+Theorem shape_mismatch_cond_rejected : forall c t f sh,
+  has_kind KB c && has_kind KI t && has_kind KI f = true ->
+  first_shape [c; t; f] = Some sh -> forallb (shape_ok sh) [c; t; f] = false ->
+  fn_cond c t f = Err ValueError.
+Proof. exact cond_shape_mismatch_rejected. Qed.
+Print Assumptions shape_mismatch_cond_rejected.
+
+(* aggregate helpers over any nesting of iterables, arrays and literals *)
+Theorem count_true_sem : forall args e en bs,
+  h_count_true args = Ok e -> denote_bools en (flatten_nest (NL args)) bs ->
+  ev en e = Some (VI (count_trues bs)).
+Proof. exact h_count_true_sem. Qed.
+Print Assumptions count_true_sem.
+
+Theorem fold_or_sem : forall args e en bs,
+  h_fold_or args = Ok e -> denote_bools en (flatten_nest (NL args)) bs ->
+  ev en e = Some (VB (existsb (fun b => b) bs)).
+Proof. exact h_fold_or_sem. Qed.
+Print Assumptions fold_or_sem.
+
+Theorem fold_and_sem : forall args e en bs,
+  h_fold_and args = Ok e -> denote_bools en (flatten_nest (NL args)) bs ->
+  ev en e = Some (VB (forallb (fun b => b) bs)).
+Proof. exact h_fold_and_sem. Qed.
+Print Assumptions fold_and_sem.
+
+Theorem alldifferent_sem : forall args e en zs,
+  h_alldifferent args = Ok e -> denote_ints en (flatten_nest (NL args)) zs ->
+  exists b, ev en e = Some (VB b) /\ (b = true <-> NoDup zs).
+Proof. exact h_alldifferent_sem. Qed.
+Print Assumptions alldifferent_sem.
+
+Theorem count_true_defined_iff : forall args,
+  (exists e, h_count_true args = Ok e) <-> forallb bool_item (flatten_nest (NL args)) = true.
+Proof. exact h_count_true_ok_iff. Qed.
+Print Assumptions count_true_defined_iff.
+
+Theorem conv2d_windowed : forall h w data kh kw o,
+  0 <= h -> 0 <= w -> zlen data = h * w -> 1 <= kh -> 1 <= kw -> o <> ConvOther ->
+  let rh := Z.max 0 (h - kh + 1) in
+  let rw := Z.max 0 (w - kw + 1) in
+  exists r, conv2d h w data kh kw o = Ok (VA KB (S2 rh rw) r) /\ zlen r = rh * rw /\
+    forall y x, 0 <= y < rh -> 0 <= x < rw ->
+      exists e, nth_error r (Z.to_nat (y * rw + x)) = Some e /\
+        forall en,
+          (forall dy dx, 0 <= dy < kh -> 0 <= dx < kw ->
+             exists b, cell_value en w data (y + dy) (x + dx) = Some (VB b)) ->
+          exists b, ev en e = Some (VB b) /\
+            (b = true <->
+             match o with
+             | ConvAnd => forall dy dx, 0 <= dy < kh -> 0 <= dx < kw ->
+                            cell_value en w data (y + dy) (x + dx) = Some (VB true)
+             | _ => exists dy dx, 0 <= dy < kh /\ 0 <= dx < kw /\
+                            cell_value en w data (y + dy) (x + dx) = Some (VB true)
+             end).
+Proof. exact conv2d_sem. Qed.
+Print Assumptions conv2d_windowed.
+
+Theorem four_neighbor_indices_orthogonal : forall h w a y x,
+  fn_parse a = Ok (y, x) -> 0 <= y < h -> 0 <= x < w ->
+  exists l, four_neighbor_indices h w a = Ok l /\ NoDup l /\
+    forall y' x', In (y', x') l <-> orth_neighbour h w y x y' x'.
+Proof. exact four_neighbor_indices_sem. Qed.
+Print Assumptions four_neighbor_indices_orthogonal.
+
+Theorem four_neighbors_cells : forall k h w data a y x,
+  fn_parse a = Ok (y, x) -> zlen data = h * w -> 0 <= y < h -> 0 <= x < w ->
+  exists idx l, four_neighbor_indices h w a = Ok idx /\
+    four_neighbors k h w data a = Ok (VA k (S1 (zlen l)) l) /\
+    Forall2 (fun p e => nth_error data (Z.to_nat (fst p * w + snd p)) = Some e) idx l.
+Proof. exact four_neighbors_sem. Qed.
+Print Assumptions four_neighbors_cells.
